@@ -88,6 +88,76 @@ def average (z : α) (found : List (GRec α)) : Acc α :=
   divAcc (found.foldl iadd ⟨z, z, z, [], [], []⟩) ((found.length : Nat) : α)
 end
 
+/-! ### the probe of one pair: `NonCovalentlyCoupledGroups.is_coupled_protonation_state_probability` -/
+/-- the thresholds the probe reads from the parameters -/
+structure ProbeP (α : Type) where
+  minInter : α      -- min_interaction_energy
+  minPka : α        -- min_pka
+  maxPka : α        -- max_pka
+  maxEdiff : α      -- max_free_energy_diff
+  minShift : α      -- min_swap_pka_shift
+  maxIntr : α       -- max_intrinsic_pka_diff
+  ph : Option α     -- `none`: pH 'variable' (the smaller of the two pKa values is used)
+
+/-- the dictionary returned for a coupled pair (the three scaling factors separately; the code returns their product) -/
+structure ProbeRes (α : Type) where
+  defaultE : α
+  swappedE : α
+  inter : α
+  sp1 : α
+  sp2 : α
+  sh1 : α
+  sh2 : α
+  ph : α
+  fE : α
+  fP : α
+  fI : α
+
+section
+variable {α : Type} [Add α] [Sub α] [Mul α] [Div α] [Neg α] [NatCast α] [LT α] [LE α] [DecidableLT α] [DecidableLE α]
+
+/-- Python's `max(a, b)` / `min(a, b)` / `abs(x)` (first maximal / minimal argument; `+ 0` turns −0.0 into 0.0) -/
+def pyMax (a b : α) : α := if a < b then b else a
+def pyMin (a b : α) : α := if b < a then b else a
+def pyAbs (x : α) : α := if x < ((0:Nat):α) then -x else x + ((0:Nat):α)
+
+/-- `get_interaction(group1, group2)`: side-chain then Coulomb determinants of `g1` whose partner is `g2` -/
+def interaction (g1 g2 : GRec α) : α :=
+  (g1.sc ++ g1.cb).foldl (fun acc d => if d.grp = g2.label then acc + d.value else acc) ((0:Nat):α)
+
+def sq (x : α) : α := x * x
+def energyFactor (p : ProbeP α) (e1 e2 : α) : α :=
+  let d := pyAbs (e1 - e2)
+  if d ≤ p.maxEdiff then ((1:Nat):α) - sq (d / p.maxEdiff) else ((0:Nat):α)
+def pkaFactor (p : ProbeP α) (i1 i2 : α) : α :=
+  let d := pyAbs (i1 - i2)
+  if d ≤ p.maxIntr then ((1:Nat):α) - sq (d / p.maxIntr) else ((0:Nat):α)
+def interFactor (p : ProbeP α) (ie : α) : α :=
+  let a := pyAbs ie
+  if p.minInter ≤ a then (a - p.minInter) / (((1:Nat):α) + a - p.minInter) else ((0:Nat):α)
+
+/-- the probe with `return_on_fail=True`: the state of the two groups afterwards, and the result for a coupled pair
+    (`none`: `{'coupling_factor': -1.0}`).  `energy ph g1 g2` is the folding energy as a function of the state of the pair;
+    `i1 i2` the intrinsic pKa values. -/
+def probe (fixed : α) (p : ProbeP α) (energy : α → GRec α → GRec α → α) (i1 i2 : α) (g1 g2 : GRec α) :
+    (GRec α × GRec α) × Option (ProbeRes α) :=
+  let ie := pyMax (interaction g1 g2) (interaction g2 g1)
+  if ie ≤ p.minInter then ((g1, g2), none) else
+  let ph := match p.ph with | some v => v | none => pyMin g1.pka g2.pka
+  let e0 := energy ph g1 g2
+  if pyMax g1.pka g2.pka < p.minPka ∨ p.maxPka < pyMin g1.pka g2.pka then ((g1, g2), none) else
+  let s := swap fixed g1 g2
+  let e1 := energy ph s.1 s.2
+  let sh1 := s.1.pka - g1.pka
+  let sh2 := s.2.pka - g2.pka
+  let b := swap fixed s.1 s.2
+  if p.maxEdiff < pyAbs (e0 - e1) then (b, none)
+  else if pyMax (pyAbs sh1) (pyAbs sh2) < p.minShift then (b, none)
+  else if p.maxIntr < pyAbs (i1 - i2) then (b, none)
+  else (b, some { defaultE := e0, swappedE := e1, inter := ie, sp1 := s.1.pka, sp2 := s.2.pka, sh1 := sh1, sh2 := sh2, ph := ph,
+                  fE := energyFactor p e0 e1, fP := pkaFactor p i1 i2, fI := interFactor p ie })
+end
+
 /-! ### determinant rows of the .pka table -/
 /-- line `i` of a group's block: the i-th determinant of each kind, or the filler -/
 def rowsOf {β : Type} (sc bb cb : List β) : List (Option β × Option β × Option β) :=
